@@ -46,6 +46,11 @@ pub struct Case {
     /// submission queue. Default rings only.
     #[serde(default)]
     pub queued_ahead: Vec<u8>,
+    /// Kernel-thread rings: the kernel thread is already asleep
+    /// (IORING_SQ_NEED_WAKEUP set) when the queued entries of `full_queue`
+    /// are added and the threads start.
+    #[serde(default)]
+    pub sqpoll_asleep: bool,
     pub tape: Vec<u16>,
     /// Priority schedule (few preemptions, long runs) instead of the tape.
     #[serde(default)]
@@ -77,8 +82,9 @@ impl Property for C11 {
             proptest::collection::vec(any::<u16>(), 0..160),
             crate::strat::maybe_pct(3, 150),
             proptest::collection::vec(prop_oneof![3 => Just(0u8), 2 => Just(1u8), 1 => Just(2u8)], 3),
+            proptest::bool::weighted(0.4),
         )
-            .prop_map(|(mode, zero_polls, wakers, full_queue, prefill, drop_ring, tape, pct, queued_ahead)| Case { mode, zero_polls, wakers, full_queue, prefill, drop_ring, queued_ahead, tape, pct })
+            .prop_map(|(mode, zero_polls, wakers, full_queue, prefill, drop_ring, tape, pct, queued_ahead, sqpoll_asleep)| Case { mode, zero_polls, wakers, full_queue, prefill, drop_ring, queued_ahead, sqpoll_asleep, tape, pct })
             .boxed()
     }
 
@@ -128,6 +134,14 @@ fn run_case(case: &Case, ctx: &mut Ctx) {
     let raw = sim::sim().issue_fd();
     let afd: &'static a10::AsyncFd = Box::leak(Box::new(unsafe { a10::AsyncFd::from_raw_fd(raw, sq.clone()) }));
     let mut primed = Vec::new();
+    if case.mode == Mode::Sqpoll && case.sqpoll_asleep {
+        let mut s = sim::sim();
+        if let Some(idx) = s.ring_index(ring_fd) {
+            if s.sqpoll_go_idle(idx) {
+                classes.push("kernel-thread-asleep-at-start");
+            }
+        }
+    }
     if case.full_queue {
         for k in 0..2u64 {
             let mut f = Box::pin(afd.truncate(77 + k));
@@ -285,6 +299,16 @@ fn run_case(case: &Case, ctx: &mut Ctx) {
                 }
                 if !active && wd.load(Ordering::SeqCst) == nwakers {
                     break;
+                }
+                // Asleep (NEED_WAKEUP set): nothing is consumed until an
+                // enter with IORING_ENTER_SQ_WAKEUP.
+                let asleep = active && {
+                    let mut s = sim::sim();
+                    s.ring_index(ring_fd).is_some_and(|idx| s.rings[idx].sqpoll_idle)
+                };
+                if asleep {
+                    let _ = sched::park(Reason::Token(SQPOLL_TOKEN));
+                    continue;
                 }
                 let consumed = {
                     let mut s = sim::sim();
